@@ -38,7 +38,8 @@ def required_cells(tier):
             "cli:-x-vs-toml", "cli:-x-plus-toml", "cli:tree", "cli:cov", "compiled-file-outside-root",
             "configuration-via-load_database", "code-base-of-two-directories", "outside-header-included-through-link-in-root", "code-base-of-two-directories:name-prefix-related",
             "cli:directory-only-wildcard-pattern", "cli:tree-front-end-twice-in-one-process", "hard-linked-names:one-excluded", "hard-linked-names:both-members",
-            "directive-looking-line-inside-block-comment-in-headers", "directive-looking-line-inside-block-comment-in-outside-header"]
+            "directive-looking-line-inside-block-comment-in-headers", "directive-looking-line-inside-block-comment-in-outside-header",
+            "cli:pattern-holding-a-comma", "cli:pattern-repeated-around-a-negation", "cli:directory-only-wildcard-pattern-beside-a-file-of-that-name"]
 
 
 def attribution(state, case, base):
@@ -288,6 +289,75 @@ def hard_link_exclusion(ctx, git, base):
             acc.held(cells=cells, cls="hard", nontrivial=case)
 
 
+def cli_pattern_scenarios(ctx, git, base):
+    """Fixed tree, pattern lists split between `-x` and `[codebase] exclude` in ways in which order, repetition and
+    punctuation matter: a pattern repeated on both sides of a negation, a file name holding a comma, a directory-only
+    pattern that must not match a file.  The command line's patterns come first, the analysis file's after them.
+    Expected members: git check-ignore on the merged list; observed: Total SLOC / rows of codebasin, files of cbi-tree."""
+    acc = ctx.acc
+    d = os.path.join(base, "clipat")
+    shutil.rmtree(d, ignore_errors=True)
+    os.makedirs(os.path.join(d, "tests"))
+    files = {"a.c": "#include \"keep.h\"\n#include \"small.h\"\n#include \"tables,small.h\"\nint a;\n", "keep.h": "int k1;\nint k2;\nint k3;\nint k4;\n", "small.h": "int s1;\nint s2;\nint s3;\n",
+             "tables,small.h": "int t1;\nint t2;\nint t3;\nint t4;\nint t5;\nint t6;\n", "test_io.cpp": "int io;\nint io2;\n", "tests/unit.cpp": "int u;\n", "other.h": "int o;\n"}
+    for rel, text in files.items():
+        with open(os.path.join(d, rel), "w") as f:
+            f.write(text)
+    with open(os.path.join(d, "db.json"), "w") as f:
+        json.dump([{"file": "a.c", "directory": d, "arguments": ["gcc", "-c", "a.c"]}], f)
+    sloc = {rel: len(text.splitlines()) for rel, text in files.items()}
+    scen = [(["*.h"], ["!keep.h", "*.h"]), (["*.h"], ["!keep.h"]), (["*.h", "!keep.h"], ["*.h"]), (["tables,small.h"], []), ([], ["tables,small.h"]),
+            (["small.h"], ["!small.h", "small.h"]), (["test*/"], []), ([], ["test*/"]), (["tests/", "test*/"], ["test_io.cpp", "!test_io.cpp"]), (["./keep.h"], ["/keep.h"]),
+            (["*.h", "*.h"], ["!other.h", "!other.h"]), (["a,b", "*.cpp"], ["!test_io.cpp"])]
+    for k, (xs, ts) in enumerate(scen):
+        if (k + 2) % ctx.nshards != ctx.shard:
+            continue
+        merged = xs + ts
+        try:
+            ign = git.ignored(d, merged, sorted(files))
+        except Exception as e:
+            acc.inconc(f"git oracle failed: {e}")
+            continue
+        members = sorted(r for r in files if not ign.get(r, False))
+        with open(os.path.join(d, "analysis.toml"), "w") as f:
+            if ts:
+                f.write("[codebase]\nexclude = [%s]\n\n" % ", ".join(json.dumps(p_) for p_ in ts))
+            f.write('[platform.p]\ncommands = "db.json"\n')
+        xargs = [y for p_ in xs for y in ("-x", p_)]
+        problems = []
+        rc, out, err = cli.run("codebasin", ["-R", "summary"] + xargs + ["analysis.toml"], d)
+        acc.hook("find")
+        if rc != 0:
+            problems.append({"kind": "codebasin failed", "stderr": err[-300:]})
+        else:
+            sm = cli.parse_summary(out)
+            want_total = sum(sloc[r] for r in members)
+            if sm["metrics"].get("Total SLOC") != str(want_total):
+                problems.append({"kind": "codebasin: Total SLOC with patterns split between -x and the analysis file", "members": members,
+                                 "expected": want_total, "observed": sm["metrics"].get("Total SLOC")})
+        rc, out, err = cli.run("cbi-tree", xargs + ["analysis.toml"], d)
+        if rc != 0:
+            problems.append({"kind": "cbi-tree failed", "stderr": err[-300:]})
+        else:
+            legend, rows = cli.parse_tree(out)
+            names = sorted(r["name"] for r in rows if not r["is_dir"])
+            if names != sorted(os.path.basename(m) for m in members):
+                problems.append({"kind": "cbi-tree: files listed with patterns split between -x and the analysis file",
+                                 "expected": sorted(os.path.basename(m) for m in members), "observed": names})
+        cells = {"cli:fixed-pattern-scenarios"}
+        if any("," in p_ for p_ in merged):
+            cells.add("cli:pattern-holding-a-comma")
+        if set(xs) & set(ts) and any(p_.startswith("!") for p_ in merged):
+            cells.add("cli:pattern-repeated-around-a-negation")
+        if any(p_.endswith("/") and "*" in p_ for p_ in merged):
+            cells.add("cli:directory-only-wildcard-pattern-beside-a-file-of-that-name")
+        case = {"scenario": "cli patterns", "-x": xs, "analysis-file": ts}
+        if problems:
+            acc.violated({"input": case, "witness": dict(case, merged=merged, members=members, problems=problems)}, cells=cells, cls="cli")
+        else:
+            acc.held(cells=cells, cls="cli", nontrivial=case)
+
+
 def multi_directory_check(ctx, git, case, base, conf, attr0, inroot, realroot, cls):
     """The code base given as two directories (library API): each pattern is read relative to the directory that holds
     the file, so the lines that remain are the union of what the two single-directory code bases keep."""
@@ -418,6 +488,7 @@ def run_shard(ctx):
         tree_twice_in_one_process(ctx, base)
     if ctx.shard == 1 % ctx.nshards:
         hard_link_exclusion(ctx, git, base)
+    cli_pattern_scenarios(ctx, git, base)
     rng = ctx.rng("cases")
     for i in range(b["cases"]):
         small = rng.random() < 0.4
